@@ -95,12 +95,15 @@ KNOWN = [
       rules=[], tags=["hist:eviction_during_concurrency"],
       reproducer="findings/C12-eviction-in-multi-cluster-write.json", domain="seq"),
  dict(id="C17-failed-zeroing-of-new-cluster-keeps-mapping", property="C17",
-      what="when both the hole punch and its zero-write fallback fail while a freshly allocated data cluster is zeroed, "
-           "write_at returns Err but the new mapping stays (and is flushed later), so the guest cluster reads the stale "
-           "content of the host cluster's previous use instead of its old or new value (fault plan fails a punch request and "
-           "the fallback write that follows it)",
-      rules=["ReadData", "Reopen", "Frame"], tags=["punch_and_fallback_failed"],
-      reproducer="findings/C17-unzeroed-new-cluster.json", domain="plans"),
+      what="a write_at that fails after it mapped a freshly allocated data cluster but before that cluster was zeroed "
+           "(the hole punch and its zero-write fallback both fail; or an earlier step of the same call fails, e.g. the fsync "
+           "that makes a reused preallocation durable) returns Err but keeps the new mapping, which a later flush_meta "
+           "persists: the guest cluster then reads the stale content of the host cluster's previous use instead of its old "
+           "or new value (the violating guest cluster maps a host cluster that was in the new-cluster set right after a "
+           "failed write_at)",
+      rules=["ReadData", "Reopen", "Frame"], tags=["unzeroed_new_cluster_left_by_failed_write"],
+      reproducer="findings/C17-unzeroed-new-cluster.json",
+      reproducers=["findings/C17-unzeroed-new-cluster.json", "findings/C17-unzeroed-new-cluster-early-error.json"], domain="plans"),
  dict(id="C18-slice-eviction-under-concurrency", property="C18",
       what="same root cause as C06-slice-eviction-under-concurrency: an update made through a slice evicted while several "
            "tasks run is lost from the cache, so after flush_meta the flag is false although file and memory disagree "
